@@ -153,15 +153,15 @@ func H_C07_Hole() {
 // H_C07_Fixed: closed documents (empty containers, the repo's sample shapes).
 func H_C07_Fixed() {
 	docs := []jv{
-		jobj([]string{"a"}, jarr()),                                   // empty array
-		jobj([]string{"a"}, jarr(jarr())),                             // nested empty array
-		jobj(nil),                                                     // empty top-level object
-		jobj([]string{"a"}, jobj(nil)),                                // empty nested object
-		jobj([]string{"a"}, jlit("12345678901234567890123")),          // beyond float64
-		jobj([]string{"a", "b"}, jlit("1.50"), jlit("-0.0e+10")),      // literals kept verbatim
+		jobj([]string{"a"}, jarr()),                              // empty array
+		jobj([]string{"a"}, jarr(jarr())),                        // nested empty array
+		jobj(nil),                                                // empty top-level object
+		jobj([]string{"a"}, jobj(nil)),                           // empty nested object
+		jobj([]string{"a"}, jlit("12345678901234567890123")),     // beyond float64
+		jobj([]string{"a", "b"}, jlit("1.50"), jlit("-0.0e+10")), // literals kept verbatim
 		jobj([]string{"d"}, jarr(jobj([]string{"x"}, jlit("1")), jobj([]string{"y"}, jarr(jobj([]string{"z"}, jlit("null")))))),
-		jobj([]string{"a"}, jarr(jarr(jobj([]string{"b"}, jlit("1"))))),                                  // object inside an array inside an array
-		jobj([]string{"a"}, jarr(jarr(jobj([]string{"b"}, jlit("1"))), jarr(jlit("2")))),                 // ... with a sibling array
+		jobj([]string{"a"}, jarr(jarr(jobj([]string{"b"}, jlit("1"))))),                                          // object inside an array inside an array
+		jobj([]string{"a"}, jarr(jarr(jobj([]string{"b"}, jlit("1"))), jarr(jlit("2")))),                         // ... with a sibling array
 		jobj([]string{"a"}, jarr(jarr(jarr(jobj([]string{"b"}, jstr("x")), jobj([]string{"c"}, jlit("true")))))), // three levels
 	}
 	ids := []string{"C07.fixed-empty-array", "C07.fixed-nested-empty-array", "C07.fixed-empty-object", "C07.fixed-empty-nested-object",
